@@ -72,6 +72,9 @@ def new_value(rng):
         return rng.choice(worlds.DATES)
     if r < 0.94:
         return rng.choice(worlds.ODD_VALUES)
+    if r < 0.96:
+        # an error value (the object the library itself uses for it)
+        return worlds.dec({'$err': rng.choice(worlds.ERR_CODES)})
     return rng.randint(-50, 50)
 
 
@@ -213,7 +216,17 @@ def gen_ops(rng, world, n_ev, max_ops=25, allow_faults=True):
         elif r < 0.945:
             # checkpoint: the same Model object is saved and re-loaded from
             # the file; evaluators created before keep being used
-            ops.append({'op': 'checkpoint', 'path': '/simfs/ck.json'})
+            ck = {'op': 'checkpoint', 'path': rng.choice(
+                ['/simfs/ck.json', '/simfs/ck.json', '/simfs/ck.gz'])}
+            if allow_faults and rng.random() < 0.5:
+                # the re-load fails: the file lost its tail (a torn write
+                # nobody noticed) or the disk reports an error while it is
+                # read; the live model must stay what it was
+                ck['damage'] = rng.choice([
+                    {'kind': 'truncate',
+                     'frac': round(rng.uniform(0.0, 0.999), 3)},
+                    {'kind': 'read_eio', 'at': rng.choice([1, 1, 2, 3])}])
+            ops.append(ck)
         elif r < 0.96:
             # the model is saved (possibly unsuccessfully) in between
             p = {'op': 'persist', 'path': rng.choice(
@@ -263,6 +276,35 @@ def deep_world(rng):
             'range_names': {}, 'order': order, 'soft_deps': {}}
 
 
+VOLATILE = ['=NOW()', '=TODAY()', '=YEAR(TODAY())', '=NOW()-TODAY()',
+            '=TODAY()+1', '=INT(NOW())', '=NOW()*1', '=IF(NOW()>0,TODAY(),0)',
+            '=MONTH(NOW())', '=DAY(TODAY())&"."']
+
+
+def add_volatile_cells(rng, world):
+    """Formulas that read the clock, on a sheet of their own, and one cell
+    on top of them."""
+    k = 0
+    vol = []
+    for f in rng.sample(VOLATILE, rng.randint(1, 3)):
+        k += 1
+        a = f'Vol!A{k}'
+        world['cells'][a] = f
+        world['deps'][a] = []
+        world['level'][a] = 1
+        world['order'].append(a)
+        vol.append(a)
+    a = f'Vol!A{k + 1}'
+    world['cells'][a] = '=A1+1'
+    world['deps'][a] = ['Vol!A1']
+    world['level'][a] = 2
+    world['order'].append(a)
+    vol.append(a)
+    world['volatile'] = vol
+    if 'Vol' not in world['sheets']:
+        world['sheets'] = list(world['sheets']) + ['Vol']
+
+
 def gen_case(seed, tier='quick'):
     rng = random.Random(seed)
     faulty = rng.random() < 0.5
@@ -286,9 +328,33 @@ def gen_case(seed, tier='quick'):
     world = worlds.gen_world(rng, userfuncs=faulty and rng.random() < 0.5)
     if rng.random() < 0.25:
         worlds.add_env_cells(rng, world)
+    volatile = rng.random() < 0.1
+    if volatile:
+        add_volatile_cells(rng, world)
     n_ev = rng.choice([1, 1, 2, 3])
     ops = gen_ops(rng, world, n_ev, allow_faults=faulty,
                   max_ops=40 if tier == 'thorough' else 25)
+    if volatile:
+        # the clock is one of the current inputs of these models: it moves
+        # between the calls, and calls are cut short while it is being read
+        out = []
+        for o in ops:
+            if o['op'] == 'eval' and rng.random() < 0.5:
+                out.append({'op': 'clock_jump', 'delta': rng.choice(
+                    [1.5, 61, 3600, 86400, -86400, 1e6, 3.15e7])})
+            out.append(o)
+            if o['op'] == 'eval' and rng.random() < 0.3:
+                out.append({'op': 'eval', 'ev': o['ev'],
+                            'target': rng.choice(world['volatile'])})
+        ops = out
+        if faulty:
+            evals = [o for o in ops if o['op'] == 'eval'
+                     and o['target'] in world['volatile']
+                     and not o.get('fault')]
+            if evals:
+                rng.choice(evals[:3])['fault'] = {
+                    'kind': 'interrupt',
+                    'frac': round(rng.uniform(0.05, 0.95), 3)}
     knobs = {'n_evaluators': n_ev,
              'max_empty': rng.choice([100, 100, 100, 1, 2, 5]),
              'fail_on': rng.choice([1, 2, 3]) if faulty else None,
@@ -405,6 +471,7 @@ class History:
         knobs = case['knobs']
         names = world['names']
         with Ambient(case['seed']) as amb:
+            self.clock = amb.clock
             ast_nodes.MAX_EMPTY = knobs.get('max_empty', 100)
             if knobs.get('decoy'):
                 worlds.run_decoy(world, UserFuncs(None).namespace())
@@ -456,10 +523,30 @@ class History:
                     self.do_persist(seq, op, model)
                     continue
                 if kind == 'checkpoint':
+                    from ..seams import _Installed
+                    fs_ = _Installed.fs
+                    fs_.reset_op(bufsize=64)
                     o1 = outcome_of(model.persist_to_json_file, op['path'])
+                    dmg = op.get('damage') if o1[0] == 'ok' else None
+                    rf = None
+                    if dmg and dmg['kind'] == 'truncate':
+                        data = fs_.get(op['path'])
+                        fs_.put(op['path'],
+                                data[:int(len(data) * dmg['frac'])])
+                        self.bump('fault:checkpoint_file_truncated')
+                        self.bump('faults_fired')
+                    elif dmg:
+                        rf = {'kind': 'eio', 'at': dmg['at']}
+                    fs_.reset_op(bufsize=64, read_fault=rf)
                     o2 = outcome_of(model.construct_from_json_file,
                                     op['path'], build_code=True) \
                         if o1[0] == 'ok' else ['skipped']
+                    for k in fs_.op_fired:
+                        self.bump(f'fault:{k}')
+                        self.bump('faults_fired')
+                    fs_.reset_op()
+                    if dmg and o2[0] == 'exc':
+                        self.bump('probe:reload_failed_model_keeps_going')
                     self.bump('probe:same_model_reloaded_from_checkpoint')
                     self.log.append([seq, 'checkpoint', o1[0], o2[0]])
                     self.sig.append('k')
@@ -630,8 +717,22 @@ class History:
             resp = Child.get().twin_eval(
                 world, self.inputs, [addr], tag=tag,
                 max_empty=self.case['knobs'].get('max_empty', 100),
-                seed=self.case['seed'])
+                seed=self.case['seed'], clock=self.clock.t)
             self.bump('probe:twin_in_pristine_process')
+            if resp.get('ok'):
+                want = resp['outcomes'][addr]
+                out = json.loads(json.dumps(out))
+        vol = world.get('volatile')
+        if vol and out == want and set(vol) & set(closure(world, addr)):
+            # the clock is an input of this cell: the reference is a model
+            # compiled and evaluated at the same simulated instant by a
+            # process that has lived through none of this history
+            from ..restorer import Child
+            resp = Child.get().twin_eval(
+                world, self.inputs, [addr], tag=tag,
+                max_empty=self.case['knobs'].get('max_empty', 100),
+                seed=self.case['seed'], clock=self.clock.t)
+            self.bump('probe:volatile_cell_against_pristine_process')
             if resp.get('ok'):
                 want = resp['outcomes'][addr]
                 out = json.loads(json.dumps(out))
